@@ -160,7 +160,8 @@ func (x *gen) directedReReads() {
 		return
 	}
 	c.exec("flush 4")
-	for i := 0; i < 2; i++ {
+	n1 := 1 + x.g.Intn(2)
+	for i := 0; i < n1; i++ {
 		c.exec(fmt.Sprintf("readindex %d", a.id))
 		c.exec("flush 3")
 	}
@@ -204,7 +205,10 @@ func (x *gen) directedReReads() {
 		}
 	}
 	if x.isLeader(a) {
-		c.exec(fmt.Sprintf("readindex %d", a.id))
+		// as many reads as the first leadership served, or one more, queued back to back
+		for i, n2 := 0, n1+x.g.Intn(2); i < n2; i++ {
+			c.exec(fmt.Sprintf("readindex %d", a.id))
+		}
 		for r := 0; r < 3; r++ {
 			c.exec(fmt.Sprintf("process %d", a.id))
 			x.deliverAll()
